@@ -649,7 +649,8 @@ impl TextResource {
     /// Returns a sorted double-ended iterator over all textselections in this resource.
     /// For unsorted (slightly more performant), use [`TextResource::textselections_unsorted()`] instead.
     pub fn iter<'a>(&'a self) -> TextSelectionIter<'a> {
-        self.range(0, self.textlen())
+        //the upper bound is exclusive, text selections may begin or end at textlen() itself
+        self.range(0, self.textlen() + 1)
     }
 
     /// Returns a sorted iterator over all absolute positions (begin aligned cursors) that are in use.
